@@ -14,7 +14,9 @@ def gen_inputs(ctx):
     seeds = ["5e" * 64, "00" * 64] + [bytes(rng.randrange(256) for _ in range(64)).hex() for _ in range(1 if q else 8)]
     accounts = [0, 1, 2 ** 31 - 2] + [rng.randrange(2 ** 31 - 1)]
     paths = [[], [0], [H], [44 + H], [44 + H, H], [44 + H, 1 + H, H], [49 + H, H, 3 + H, 0, 1], [84 + H, 1 + H, H, 1, 9],
-             [84 + H, H, H, 0, 2 ** 31 - 1], [7, 8 + H, 9], [2 ** 32 - 1, 0]]
+             [84 + H, H, H, 0, 2 ** 31 - 1], [7, 8 + H, 9], [2 ** 32 - 1, 0],
+             # purposes other than 44/49/84, coin slots that name the OTHER network, shallow and deep nodes
+             [86 + H, H, H], [48 + H, 1 + H, H, 2 + H], [45 + H], [H, H], [49 + H, 1 + H], [84 + H, H], [44, 1, 0], [49 + H, 2 + H, H, 0, 0]]
     for net in ("main", "test"):
         for seed in seeds:
             for acct in (accounts if not q else [rng.choice(accounts)]):
